@@ -24,6 +24,7 @@ type Engine struct {
 	cfg                Config
 	externals          map[string]externalFn
 	replace            map[string]*ssa.Function // real function -> Go-written stub
+	noCRCLemmas        bool
 	pkgInitFix         map[string]func(p *Path, pkg *ssa.Package)
 	opaque             map[string]bool
 	sizes              types.Sizes
